@@ -254,4 +254,157 @@ theorem allSome_eq_some {γ : Type} (l : List (Option γ)) (r : List γ) :
           simp [ih l' hx]
   · intro h; subst h; exact allSome_map_some r
 
+/-! the input side, error branch included -/
+
+theorem findParam_of_mem (ps : List Param) (p : Param)
+    (hd : namesDistinct (ps.map (·.name)) = true) (hp : p ∈ ps) : findParam ps p.name = some p := by
+  induction ps with
+  | nil => cases hp
+  | cons q rest ih =>
+    simp only [List.map_cons, namesDistinct, Bool.and_eq_true, Bool.not_eq_true'] at hd
+    obtain ⟨hq, hrest⟩ := hd
+    rcases List.mem_cons.mp hp with rfl | hp'
+    · simp [findParam]
+    · have hne : ¬ q.name = p.name := by
+        intro he
+        have : (rest.map (·.name)).contains q.name = true := by
+          rw [he]; simp only [List.contains_eq_mem, List.mem_map, decide_eq_true_eq]
+          exact ⟨p, hp', rfl⟩
+        rw [this] at hq; cases hq
+      simp only [findParam, beq_iff_eq, hne, if_false]
+      exact ih hrest hp'
+
+/-- the default a conforming positional parameter has, by kind of its input field -/
+def inDefaultShape (k : FieldKind) (d : Option Val) : Prop :=
+  match k with
+  | .single => d = Option.none
+  | .optional => d = some Val.none
+  | .variadic => d = Option.none ∨ d = some (Val.other "()")
+
+theorem inputsOK_params (flds : List (String × FieldKind)) (ws : List (String × String)) (ps : List Param)
+    (h : inputsOK flds ws ps = true) :
+    ∀ f ∈ flds, ∃ p ∈ ps, p.name = f.1 ∧ inDefaultShape f.2 p.default := by
+  induction flds generalizing ws ps with
+  | nil => intro f hf; cases hf
+  | cons f fs ih =>
+    cases ws with
+    | nil => simp [inputsOK] at h
+    | cons w ws =>
+      cases ps with
+      | nil => simp [inputsOK] at h
+      | cons p ps =>
+        simp only [inputsOK, Bool.and_eq_true] at h
+        obtain ⟨h1, h2⟩ := h
+        intro g hg
+        rcases List.mem_cons.mp hg with rfl | hg
+        · unfold inputOK at h1
+          simp only [Bool.and_eq_true, beq_iff_eq] at h1
+          obtain ⟨⟨⟨⟨⟨_, _⟩, hn⟩, _⟩, _⟩, hdef⟩ := h1
+          refine ⟨p, List.mem_cons_self, hn, ?_⟩
+          unfold inDefaultShape
+          cases hk : g.2 <;> rw [hk] at hdef <;> simp_all
+        · obtain ⟨q, hq, hq'⟩ := ih ws ps h2 g hg
+          exact ⟨q, List.mem_cons_of_mem _ hq, hq'⟩
+
+/-- what a conforming constructor does with one input, for every spelling -/
+def expectedInE {α : Type} (ps : List Param) (spelled : String → InSpell α) (f : String × FieldKind) :
+    Option (Emit.Arg α) :=
+  if rejectsIn f.2 (paramHasDefault ps f.1) (spelled f.1) then Option.none
+  else some (acceptedIn f.2 (spelled f.1))
+
+theorem callInputE_of_inputsOK {α : Type} (c : Ctor) (flds : List (String × FieldKind))
+    (h : inputsOK flds c.inputWires (positional c.params) = true)
+    (hd : namesDistinct (c.params.map (·.name)) = true)
+    (spelled : String → InSpell α) (f : String × FieldKind) (hf : f ∈ flds) :
+    callInputE c spelled f = expectedInE c.params spelled f := by
+  obtain ⟨h1, h2⟩ := inputsOK_wires flds c.inputWires _ h
+  obtain ⟨w, hw, he⟩ := h2 f hf
+  obtain ⟨p, hp, hpn, hshape⟩ := inputsOK_params flds c.inputWires _ h f hf
+  have hp' : p ∈ c.params := (List.mem_filter.mp hp).1
+  have hfp : findParam c.params f.1 = some p := by rw [← hpn]; exact findParam_of_mem _ _ hd hp'
+  unfold callInputE expectedInE
+  cases hfind : c.inputWires.find? (fun w => w.1 == f.1) with
+  | none =>
+    have := List.find?_eq_none.mp hfind w hw
+    simp [he] at this
+  | some x =>
+    have hx1 : x.1 = f.1 := by simpa using List.find?_some hfind
+    have hx2 : x.2 = x.1 := h1 x (List.mem_of_find?_eq_some hfind)
+    simp only [hx2, hx1]
+    unfold inDefaultShape at hshape
+    cases hk : f.2 <;> rw [hk] at hshape <;> cases hs : spelled f.1 <;>
+      first
+      | (rcases hshape with hsh | hsh <;>
+          simp_all [boundIn, mkInput, rejectsIn, acceptedIn, paramHasDefault])
+      | simp_all [boundIn, mkInput, rejectsIn, acceptedIn, paramHasDefault]
+
+/-! the closed form of the trimming loop -/
+
+theorem lp_fst (xs : List (Option String)) (a b : Nat) :
+    (xs.foldl (fun (acc : Nat × Nat) x => (acc.1 + 1, if x.isSome then acc.1 + 1 else acc.2)) (a, b)).1
+      = a + xs.length := by
+  induction xs generalizing a b with
+  | nil => rfl
+  | cons x xs ih => simp only [List.foldl_cons, List.length_cons]; rw [ih]; omega
+
+theorem lastPresent_snoc (ys : List (Option String)) (x : Option String) :
+    lastPresent (ys ++ [x]) = if x.isSome then ys.length + 1 else lastPresent ys := by
+  unfold lastPresent
+  rw [List.foldl_append]
+  simp only [List.foldl_cons, List.foldl_nil]
+  have := lp_fst ys 0 0
+  simp only [Nat.zero_add] at this
+  rw [this]
+
+theorem lastPresent_le (xs : List (Option String)) : lastPresent xs ≤ xs.length := by
+  have key : ∀ r : List (Option String), lastPresent r.reverse ≤ r.length := by
+    intro r
+    induction r with
+    | nil => simp [lastPresent]
+    | cons x r ih =>
+      rw [List.reverse_cons, lastPresent_snoc]
+      split
+      · simp
+      · simp only [List.length_cons]; omega
+  have := key xs.reverse
+  simpa using this
+
+theorem trimRev_closed (minN : Nat) (r : List (Option String)) :
+    (Emit.trimRev minN r).reverse = specSlots minN r.reverse := by
+  induction r with
+  | nil => simp [Emit.trimRev, specSlots]
+  | cons x r ih =>
+    cases x with
+    | some v =>
+      simp only [Emit.trimRev, specSlots, List.reverse_cons, lastPresent_snoc, Option.isSome_some, if_true,
+        List.length_append, List.length_reverse, List.length_cons, List.length_nil]
+      rw [List.take_of_length_le]
+      simp only [List.length_append, List.length_reverse, List.length_cons, List.length_nil]
+      omega
+    | none =>
+      simp only [Emit.trimRev]
+      by_cases h : r.length + 1 > minN
+      · rw [if_pos h, ih]
+        simp only [specSlots, List.reverse_cons, lastPresent_snoc, Option.isSome_none, Bool.false_eq_true,
+          if_false, List.length_append, List.length_reverse, List.length_cons, List.length_nil]
+        have hle := lastPresent_le r.reverse
+        simp only [List.length_reverse] at hle
+        have h1 : min minN (r.length + 1) = minN := by omega
+        have h2 : min minN r.length = minN := by omega
+        rw [h1, h2, List.take_append_of_le_length]
+        simp only [List.length_reverse]
+        omega
+      · rw [if_neg h]
+        simp only [specSlots, List.reverse_cons, List.length_append, List.length_reverse, List.length_cons,
+          List.length_nil]
+        rw [List.take_of_length_le]
+        simp only [List.length_append, List.length_reverse, List.length_cons, List.length_nil]
+        omega
+
+/-- `Node.to_onnx`'s popping loop = "cut after the last present name, never below `min`" -/
+theorem emitSlots_closed (minN : Nat) (args : List (Emit.Arg String)) :
+    Emit.emitSlots minN args = specSlots minN (Emit.flatten args) := by
+  unfold Emit.emitSlots Emit.trim
+  rw [trimRev_closed, List.reverse_reverse]
+
 end Conform
